@@ -36,7 +36,9 @@ const (
 	// FilePidPrefix represents the pid flag of filename.
 	FilePidPrefix = "pid"
 
-	metricFilePattern = `\.[0-9]{4}-[0-9]{2}-[0-9]{2}(\.[0-9]*)?`
+	// The whole rest of the name is matched: a name that goes on differently after the base name
+	// ("<base>.pid12.<date>", "<base>7.<date>") is the file of another log in the same directory.
+	metricFilePattern = `^\.[0-9]{4}-[0-9]{2}-[0-9]{2}(\.[0-9]*)?$`
 )
 
 var metricFileRegex = regexp.MustCompile(metricFilePattern)
